@@ -171,6 +171,8 @@ func main() {
 			rf.Program.Cold = false
 		}
 		opt := &sim.Options{Budget: *budget, Sites: decimal128.VerifSiteCount, Property: prof.Property, Checks: prof.Checks, Reverse: prof.Reverse, Trace: true, Permute: *permute, KeepKeys: *emitKeys}
+		watchRun.Store(int64(rf.Program.Run))
+		watchStart.Store(time.Now().UnixNano()) // a replay that never returns ends with exit 2, too
 		o := sim.Execute(rf.Program, opt)
 		rl := runLine{Run: rf.Program.Run, Hash: fmt.Sprintf("%016x", o.Hash), Violations: o.Violations}
 		if *emitKeys {
